@@ -3,6 +3,7 @@
 From Coq Require Import List ZArith Bool.
 From V Require Import Gen.Params Lib.Hex
      AmpToken.AmpModel AmpToken.AmpProofs AmpToken.TokenModel AmpToken.TokenProofs.
+From V Require SentPH.Model SentPH.ProofsScalars AmpToken.AmpFull.
 Import ListNotations.
 Open Scope Z_scope.
 
@@ -73,6 +74,43 @@ Theorem C14_timer_armed_when_unblocked : forall validated0 pto ops,
   limited s = false -> hasOutstandingCrypto (tm s) = true -> alarm (tm s) <> 0.
 Proof. exact timer_armed_when_unblocked. Qed.
 Print Assumptions C14_timer_armed_when_unblocked.
+
+(** The same bound on unit C06's FULL model of sentPacketHandler (V.SentPH.Model: packet history,
+    ACK processing, loss and PTO timers, packet-number skipping, the MaxTrackedSentPackets /
+    MaxOutstandingSentPackets causes of SendNone/SendAck, DropPackets, MigratedPath ...), so the claim does
+    not rest on the slice abstraction: (i) C06's theorem (every SentPacket individually gated) with the
+    factor fixed to 3; (ii) the form the connection realises — ONE SendMode check per coalesced datagram,
+    then a SentPacket for each of its packets: bytesSent <= 3 * bytesReceived + size of the last datagram. *)
+Theorem C14_amplification_full_handler : forall validated ipn period maxPeriod rnd0 ops,
+  0 <= ipn ->
+  let i := SentPH.Model.init false validated ipn period maxPeriod rnd0 in
+  SentPH.ProofsScalars.gated i ops ->
+  SentPH.Model.sPAV (SentPH.Model.run i ops) = false ->
+  SentPH.Model.sSent (SentPH.Model.run i ops)
+    <= 3 * SentPH.Model.sRecv (SentPH.Model.run i ops) + SentPH.ProofsScalars.last_size i ops 0.
+Proof. exact AmpFull.amplification_full_handler. Qed.
+Print Assumptions C14_amplification_full_handler.
+
+Theorem C14_amplification_full_handler_datagrams : forall validated ipn period maxPeriod rnd0 h,
+  0 <= ipn ->
+  let i := SentPH.Model.init false validated ipn period maxPeriod rnd0 in
+  Forall AmpFull.wf_item h -> AmpFull.dgated i h ->
+  SentPH.Model.sPAV (SentPH.Model.run i (AmpFull.flat h)) = false ->
+  SentPH.Model.sSent (SentPH.Model.run i (AmpFull.flat h))
+    <= 3 * SentPH.Model.sRecv (SentPH.Model.run i (AmpFull.flat h)) + AmpFull.last_dgram i h 0.
+Proof. exact AmpFull.amplification_full_handler_datagrams. Qed.
+Print Assumptions C14_amplification_full_handler_datagrams.
+
+Example C14_amplification_full_handler_nonvacuous :
+  let i := SentPH.Model.init false false 0 256 131072 100 in
+  Forall AmpFull.wf_item AmpFull.full_example /\ AmpFull.dgated i AmpFull.full_example /\
+  SentPH.Model.sPAV (SentPH.Model.run i (AmpFull.flat AmpFull.full_example)) = false /\
+  SentPH.Model.sSent (SentPH.Model.run i (AmpFull.flat AmpFull.full_example)) = 3752 /\
+  SentPH.Model.sRecv (SentPH.Model.run i (AmpFull.flat AmpFull.full_example)) = 1200 /\
+  AmpFull.last_dgram i AmpFull.full_example 0 = 1400 /\
+  SentPH.Model.isAmplificationLimited (SentPH.Model.run i (AmpFull.flat AmpFull.full_example)) = true.
+Proof. exact AmpFull.full_example_run. Qed.
+Print Assumptions C14_amplification_full_handler_nonvacuous.
 
 (** Histories that end with a local close (as repaired by fixes/C14-close-ungated.patch): the bound
     over EVERYTHING the server puts on the wire — packets registered with the handler, the
